@@ -34,6 +34,17 @@ func Yield(site string) {
 	}
 }
 
+// Preempt is a statement-level preemption point woven into selected files.
+// Whether it yields is decided by the world's preemption density (a private
+// stream seeded from the tape), so most calls cost a counter increment.
+//
+//go:norace
+func Preempt(site string) {
+	if w := kernel.Current(); w != nil {
+		w.MaybePreempt(site)
+	}
+}
+
 // ---- clock (sequential simulations: C14/C15) ----
 
 // Clock is the explicit simulated clock used by sequential simulations that
